@@ -1,5 +1,6 @@
 import multiprocessing as mp
 from ctypes import c_short
+from collections.abc import Iterator
 from typing import Iterable, Any, Dict
 
 from coba.utilities  import coba_exit, peek_first
@@ -30,7 +31,10 @@ class CobaMultiprocessor(Filter[Iterable[Any], Iterable[Any]]):
             #modify it without affecting the base process logger
             CobaContext.logger.sink = self._logger_sink
 
-            yield from self._filter.filter(item)
+            #a filter may return a single value rather than an iterator of values (see Foreach). In
+            #that case the value is the output. Iterating it would turn a tuple or dict into its parts.
+            out = self._filter.filter(item)
+            yield from out if isinstance(out,Iterator) else [out]
 
     def __init__(self, filter: Filter, processes:int=1, maxtasksperchild:int=0, chunked:bool=False) -> None:
         self._filter           = filter
